@@ -1,6 +1,7 @@
 package verifsim
 
 import (
+	"sort"
 	"context"
 	"fmt"
 	"os"
@@ -388,7 +389,7 @@ func runC05(p *Plan, res *Result) {
 		d1 = d0
 	}
 	res.logf("call %s twin err=%v sites=%d events=%d", kind, terr, len(sites), len(tEvents))
-	// distinct sites in order of first occurrence
+	// distinct sites
 	var distinct []Site
 	seen := map[string]bool{}
 	for _, s := range sites {
@@ -397,6 +398,9 @@ func runC05(p *Plan, res *Result) {
 			distinct = append(distinct, s)
 		}
 	}
+	// canonical order: DefraDB walks Go maps (the fields of a document), so the order in which a call reaches
+	// its storage operations is not a function of the seed; the set of sites is
+	sort.Slice(distinct, func(i, j int) bool { return distinct[i].String() < distinct[j].String() })
 	res.Stats["sites_total"] += len(distinct)
 	if max := p.cfg("maxsites", 120); len(distinct) > max {
 		// seeded subset, order preserved
